@@ -630,7 +630,7 @@ func TestVerifGsRace(t *testing.T) {
 	r := rand.New(rand.NewSource(seed))
 	rounds, total := 20, 200
 	if thorough {
-		rounds, total = 200, 400
+		rounds, total = 1500, 400
 	}
 	var reads, wrong, panics, appends int64
 	firstBad := ""
